@@ -362,6 +362,12 @@ def run(res):
         writers = {}
         nextF = wl.F_of(cfg, base) + cfg.fc
         adjacent = rng.random() < 0.6
+        if i % 3 == 0:
+            # one period per directory, far apart (so the first and the last directory can be one-sample directories)
+            adjacent = False
+            nper = ndirs
+            owner = list(range(ndirs))
+            rng.shuffle(owner)
         periods = []
         for per, k in enumerate(owner):
             if adjacent:
@@ -376,8 +382,15 @@ def run(res):
                 tag += nsamp
             else:
                 st = wl.file_start(cfg, wl.F_of(cfg, base) + cfg.fc * (1 + 12 * per)) + rng.choice([0, 1, 2])
-                ops = [("w", 0, pf + 1, tag), ("w", pf + 3, 2, tag + pf + 1), ("c",)]
-                tag += pf + 3
+                if per in (0, nper - 1) and owner.count(k) == 1 and rng.random() < 0.6:
+                    # a directory whose whole content is ONE sample (a one-sample session), the earliest or the
+                    # latest of the union: its first and last index coincide
+                    ops = [("w", 0, 1, tag), ("c",)]
+                    tag += 1
+                    res.count("multidir-one-sample-directory")
+                else:
+                    ops = [("w", 0, pf + 1, tag), ("w", pf + 3, 2, tag + pf + 1), ("c",)]
+                    tag += pf + 3
             c2 = wl.Cfg(cfg.n, cfg.d, cfg.sc, cfg.fc, st, cfg.cont, cfg.comp, cfg.cksum, cfg.kind, cfg.size, cfg.order, cfg.is_complex, cfg.nsub)
             periods.append([k, st, [list(o) for o in ops]])
             reports, w = wl.run_impl(c2, ops, os.path.join(tops[k], "ch"))
